@@ -7,6 +7,8 @@ import Rcgen.Model.Keys
 import Rcgen.Model.Cli
 import Rcgen.Model.Ctor
 import Rcgen.Model.Error
+import Rcgen.Model.Spki
+import Rcgen.Model.PemParse
 import Rcgen.Spec.Validate
 /- line-protocol driver: one request per line, one response per line -/
 namespace Driver
@@ -423,6 +425,19 @@ def handle (op : String) (args : List Sexp) : R Sexp := do
       | "other" => do pure (.other (← a.asBytes))
       | s => throw s!"bad pem error {s}"
     pure (ofBytes (pemErrorOf e).display)
+  | "spki-from-der", [b, der] => do
+    let b ← match ← b.asAtom with
+      | "ring" => pure Backend.ring | "aws" => pure Backend.aws | s => throw s!"bad backend {s}"
+    match spkiFromDer b (← der.asBytes) with
+    | some k => pure (.list [.atom "ok", .atom (algName k.alg), ofBytes k.raw])
+    | none => pure (.atom "err")
+  | "pem-parse", [t] => do
+    match pemParse (← t.asBytes) with
+    | .ok (l, d) => pure (.list [.atom "ok", ofBytes l, ofBytes d])
+    | .error e => pure (.list [.atom "err", .atom (match e with
+        | .malformedFraming => "MalformedFraming" | .missingBeginTag => "MissingBeginTag"
+        | .missingEndTag => "MissingEndTag" | .mismatchedTags => "MismatchedTags"
+        | .invalidData => "InvalidData" | .invalidHeader => "InvalidHeader")])
   | "classify-san", [t] => do
     match classifySan (← t.asBytes) with
     | .ok s => pure (.list [.atom "ok", encSan s])
